@@ -27,17 +27,21 @@ class SetEncoder(encoder.SetEncoder):
 
         if compType.typeId == univ.Choice.typeId and not compType.tagSet:
             if asn1Spec is None:
-                return component.getComponent().tagSet
+                # the tag of the alternative chosen, through nested untagged CHOICEs
+                return component.effectiveTagSet
             else:
                 # TODO: move out of sorting key function
-                names = [namedType.name for namedType in asn1Spec.componentType.namedTypes
-                         if namedType.name in component]
-                if len(names) != 1:
-                    raise error.PyAsn1Error(
-                        '%s components for Choice at %r' % (len(names) and 'Multiple ' or 'None ', component))
+                while asn1Spec.typeId == univ.Choice.typeId and not asn1Spec.tagSet:
+                    names = [namedType.name for namedType in asn1Spec.componentType.namedTypes
+                             if namedType.name in component]
+                    if len(names) != 1:
+                        raise error.PyAsn1Error(
+                            '%s components for Choice at %r' % (len(names) and 'Multiple ' or 'None ', component))
 
-                # TODO: support nested CHOICE ordering
-                return asn1Spec.componentType[names[0]].asn1Object.tagSet
+                    asn1Spec = asn1Spec.componentType[names[0]].asn1Object
+                    component = component[names[0]]
+
+                return asn1Spec.tagSet
 
         else:
             return compType.tagSet
